@@ -23,6 +23,23 @@ def normfunc(s):
 
 _FRAME = re.compile(r'^\s*#\d+\s+0x[0-9a-f]+\s+in\s+(.*?)\s+(/\S+|\S+:\d+.*|\(.*\))?$')
 _VGFRAME = re.compile(r'^==\d+==\s+(?:at|by) 0x[0-9A-F]+: (.*?) \((.*?)\)\s*$')
+# ThreadSanitizer frames have no address part:  "#0 func /path/file.hpp:353:34 (binary+0xf80f0) (BuildId: ...)"
+_TSFRAME = re.compile(r'^\s*#\d+\s+(.*?)\s+(/\S+?:\d+(?::\d+)?)\s+\(')
+
+def first_amgcl_frame_tsan(lines):
+    first = None
+    for ln in lines:
+        m = _TSFRAME.match(ln.rstrip())
+        if not m: continue
+        fn, loc = m.group(1), m.group(2)
+        if first is None: first = fn
+        if 'amgcl/' in loc or 'amgcl::' in fn or '/lib/amgcl' in loc:
+            f = normfunc(fn)
+            if 'omp_outlined' in fn or not f or 'amgcl' not in f:
+                path = loc.split(':')[0]
+                f = path[path.find('amgcl/'):] if 'amgcl/' in path else os.path.basename(path)
+            return f
+    return normfunc(first) if first else 'unknown'
 
 def first_amgcl_frame(lines, fmt='san'):
     first = None
@@ -66,7 +83,7 @@ def parse_tsan_logs(prefix):
             kind = re.search(r'WARNING: ThreadSanitizer: ([^\(\n]+)', blk).group(1).strip().replace(' ', '-')
             # the stacks: split on blank lines; take first amgcl frame of first two stacks
             stacks = [s for s in re.split(r'\n\s*\n', blk) if '#0' in s]
-            fs = sorted(set(first_amgcl_frame(s.splitlines()) for s in stacks[:2]))
+            fs = sorted(set(first_amgcl_frame_tsan(s.splitlines()) for s in stacks[:2]))
             reps.append(('tsan:' + kind, '|'.join(fs), blk.strip()[:3000]))
     return reps
 
